@@ -160,6 +160,9 @@ func rulePDF417Encoder(c *Ctx) {
 		}
 	}
 
+	c.Doc("C13-PDF-PADDING", "pdf417.getPadding: padding = columns - (data+ecc+1) mod columns codewords of value 900, only when that remainder is positive (never a full row)")
+	c.Doc("C13-PDF-ROWS", "pdf417.calculateNumberOfRows = ceil((m+1+k)/c): (m+1+k)/c + 1, reduced by one when that already covers a further row")
+	c.Doc("K5-CONTENT", "Content returns the stored content; encoders store the text they were given (EAN: the completed code; Code 39/93: the prepared string)")
 	const R6 = "P6-PDF-ROWS"
 	c.Doc(R6, "pdf417.EncodeWithColor: for row r the cluster table is r%3 for the left indicator, every data codeword and the right indicator; both indicator functions get (r, rows, columns, securityLevel) with rows/columns from calcDimensions; each row = start, left, data..., right, stop; width = (columns+4)*17+1; check-word count 2^(level+1) is used for the dimensions, the padding and Compute")
 	c.Floor(R6, 12)
